@@ -8,7 +8,9 @@ from props.evalcommon import py_exec
 
 RULE = ('histories of 5..25 public mutator calls from a weighted grammar (add/remove/rename gate, outputs/inputs '
         'setters and orderings, replace_inputs, blocks, into_bench, copy, connect_circuit in both directions with '
-        'internal/repeated connectors and block names) applied to random starting circuits; ~12% deliberately '
+        'internal/repeated connectors and block names, replace_subcircuit on cut-bounded slices with identical / '
+        'renamed / re-expressed / structurally entangled replacements; every tenth history is a replacement that '
+        'would close a cycle through dead logic) applied to random starting circuits; ~12% deliberately '
         'invalid arguments; after every call the full state (gates, inputs, outputs, users index, blocks) is '
         'compared with the model; non-trivial = history with >=3 successful calls; distinct by (start, steps)')
 ASSUMPTIONS = ['state after an exception is unspecified: a history stops at its first raising call']
@@ -17,12 +19,25 @@ TRUSTED = ['search oracle: Lean checkWFU (decides the C02 well-formedness condit
            'copy equality/aliasing checked in the harness']
 
 
+def directed(rng, start):
+    """a replacement that closes a cycle through dead logic unless the code notices (documented error)"""
+    from props.slicegen import add_dead_loop_closer, dead_loop_slice, sub_from_slice
+    j = add_dead_loop_closer(rng, start)
+    sl = dead_loop_slice(j)
+    if sl is None:
+        return None
+    sub, im, om = sub_from_slice(j, sl, rng.choice(['entangled', 'entangled', 'renamed']), rng)
+    return j, [['replace_subcircuit', sub, im, om], ['copy'], ['mark_as_output', om[0][1]]]
+
+
 def correspondence(ctx):
     rng = ctx.rng('corr')
     reqs = []
     for k in range(ctx.scale(400, 10000)):
         ops = ALL_OPS if rng.random() < 0.7 else PRIMITIVE_OPS
         start, steps = gen_history(rng, rng.randint(5, ctx.scale(14, 25)), ops)
+        if k % 10 == 9:
+            start, steps = directed(rng, start) or (start, steps)
         reqs.append({'op': 'mutate', 'c': start, 'steps': steps})
         for s in steps:
             ctx.count('op:' + s[0])
@@ -40,6 +55,8 @@ def search(ctx):
     states, origin = [], []
     for k in range(ctx.scale(300, 8000)):
         start, steps = gen_history(rng, rng.randint(5, ctx.scale(14, 25)))
+        if k % 10 == 9:
+            start, steps = directed(rng, start) or (start, steps)
         res = py_mutate({'c': start, 'steps': steps})['ok']
         good = [x for x in res if 'err' not in x]
         ctx.case(json.dumps(['s', start['gates'], steps]), len(good) >= 3)
